@@ -151,6 +151,92 @@ pub fn scan_pub_fns(src: &str, ty: &str) -> Vec<String> {
     v
 }
 
+/// like `scan_pub_fns`, with the signature text (from `pub fn` up to the body / the `;`)
+pub fn scan_pub_fn_sigs(src: &str, ty: &str) -> Vec<(String, String)> {
+    let mut v = Vec::new();
+    let mut inside = false;
+    let lines: Vec<&str> = non_test(src).lines().collect();
+    let mut i = 0;
+    while i < lines.len() {
+        let l = lines[i];
+        let t = l.trim_start();
+        if l.starts_with("impl") {
+            let head = l.split('{').next().unwrap_or("");
+            let names: Vec<&str> = head.split(|c: char| !(c.is_alphanumeric() || c == '_')).filter(|s| !s.is_empty()).collect();
+            inside = names.contains(&ty) && !head.contains(" for ");
+        } else if l.starts_with('}') {
+            inside = false;
+        } else if inside && (t.starts_with("pub fn ") || t.starts_with("pub async fn ")) {
+            let after = t.split("fn ").nth(1).unwrap_or("");
+            let name: String = after.chars().take_while(|c| c.is_alphanumeric() || *c == '_').collect();
+            let mut sig = String::new();
+            let mut j = i;
+            while j < lines.len() {
+                let part = lines[j].split('{').next().unwrap_or("");
+                sig.push_str(part.trim());
+                sig.push(' ');
+                if lines[j].contains('{') || lines[j].trim_end().ends_with(';') {
+                    break;
+                }
+                j += 1;
+            }
+            v.push((name, sig));
+        }
+        i += 1;
+    }
+    v
+}
+
+/// a `pub fn` that only LOOKS: shared receiver (`&self`, not `&mut self` / `self`) and a return type
+/// that cannot carry a delta, a message, a route or a channel.  Such a function cannot move an
+/// update; a new one is recorded in the evidence, not judged.
+pub fn is_observer_sig(sig: &str) -> bool {
+    let shared = sig.contains("&self") && !sig.contains("&mut self");
+    if !shared {
+        return false;
+    }
+    let ret = sig.split("->").nth(1).unwrap_or("");
+    !["Delta", "Message", "Routed", "RoutingTable", "Vec<", "Sender", "Receiver", "Handle", "impl ", "Self", "Gossip"].iter().any(|w| ret.contains(w))
+}
+
+/// every `.rs` file under `dir` of the tree the harness was built against
+pub fn rs_files_under(dir: &str) -> Vec<String> {
+    let mut out = Vec::new();
+    let root = format!("{}/{}", repo_dir(), dir);
+    let mut stack = vec![root.clone()];
+    while let Some(d) = stack.pop() {
+        let Ok(rd) = std::fs::read_dir(&d) else { continue };
+        for e in rd.flatten() {
+            let p = e.path();
+            if p.is_dir() {
+                stack.push(p.to_string_lossy().to_string());
+            } else if p.extension().map(|x| x == "rs").unwrap_or(false) {
+                out.push(p.to_string_lossy().to_string());
+            }
+        }
+    }
+    out.sort();
+    out
+}
+
+/// the `pub fn`s of `impl <ty>` blocks in ANY file under `dirs` (an impl block split over files, or
+/// moved into a private submodule, is still found)
+pub fn scan_pub_fn_sigs_tree(dirs: &[&str], ty: &str) -> Vec<(String, String)> {
+    let mut v: Vec<(String, String)> = Vec::new();
+    for d in dirs {
+        for f in rs_files_under(d) {
+            if let Ok(src) = std::fs::read_to_string(&f) {
+                for x in scan_pub_fn_sigs(&src, ty) {
+                    if !v.iter().any(|y| y.0 == x.0) {
+                        v.push(x);
+                    }
+                }
+            }
+        }
+    }
+    v
+}
+
 // ---------------------------------------------------------------------------------------------
 // canonical text of messages (same grammar as lean/RedisVerif/Driver/C06Msg.lean)
 // ---------------------------------------------------------------------------------------------
@@ -1312,7 +1398,8 @@ async fn server_scenarios(out: &mut Out) {
     }
     server.abort();
     out.count("tcp:server:scenario");
-    if !got5 || !got7 {
+    if !got7 {
+        // not even a fresh connection gets a frame through: the server is not there
         out.violation(
             "C06:msg:harness:server-timeout",
             "the real gossip server did not hand a sentinel frame to the delta callback within 90 s",
@@ -1320,6 +1407,7 @@ async fn server_scenarios(out: &mut Out) {
         );
         return;
     }
+    // (a first connection that never delivered its sentinel shows below as the frames that are missing)
     expected.push(dids(&[d7.clone()]));
     let got: Vec<String> = sink.lock().iter().map(|ds| dids(ds)).collect();
     out.case("tcp server: frames of every kind, AT the size limit, garbage, one byte above the limit, reconnect", true);
@@ -1440,7 +1528,8 @@ async fn reconnect_scenario(out: &mut Out) {
             None => ok = false,
         }
     }
-    out.count(&format!("tcp:reconnect:lost-in-the-dead-connection:{}", if queued.len() > ids.len() { "some" } else { "none" }));
+    // (how many frames were written into the dead connection before the break was noticed depends on
+    // the kernel's timing: not recorded, the evidence stays a function of the seed)
     if !ok {
         out.violation(
             "C06:msg:tcp:frames-out-of-order-or-duplicated-after-reconnect",
@@ -1679,13 +1768,17 @@ fn coverage(out: &mut Out) -> Option<Caps> {
     for v in scan_enum(non_test(&srcs["src/production/gossip_actor.rs"]), "GossipMessage") {
         names.push(format!("ActorMessage::{}", v));
     }
-    for (f, ty) in [("src/replication/gossip.rs", "GossipState"), ("src/replication/state/shard_state.rs", "ShardReplicaState"), ("src/production/gossip_manager.rs", "GossipManager"), ("src/replication/gossip_router.rs", "GossipRouter")] {
-        for v in scan_pub_fns(&srcs[f], ty) {
+    // `impl` blocks are looked up in every file of the two directories (a block split over files or
+    // moved into a private submodule is still found); the signature decides what a NEW name is
+    let mut sigs: BTreeMap<String, String> = BTreeMap::new();
+    for ty in ["GossipState", "ShardReplicaState", "GossipManager", "GossipRouter"] {
+        for (v, sig) in scan_pub_fn_sigs_tree(&["src/replication", "src/production"], ty) {
             names.push(format!("{}::{}", ty, v));
+            sigs.insert(format!("{}::{}", ty, v), sig);
         }
     }
     let gossip_side = ["execute", "collect_pending_deltas", "apply_remote_deltas", "with_gossip_actor", "with_gossip_actor_and_time", "new", "with_time_source", "get_gossip_state", "gossip_actor_handle", "gossip_backend", "is_actor_based"];
-    let all_state_fns = scan_pub_fns(&srcs["src/production/replicated_state.rs"], "ReplicatedShardedState");
+    let all_state_fns: Vec<String> = scan_pub_fn_sigs_tree(&["src/production"], "ReplicatedShardedState").into_iter().map(|x| x.0).collect();
     for v in &all_state_fns {
         if gossip_side.contains(&v.as_str()) {
             names.push(format!("ReplicatedShardedState::{}", v));
@@ -1702,6 +1795,12 @@ fn coverage(out: &mut Out) -> Option<Caps> {
         match account(n) {
             Some(c) => {
                 table.insert(n.clone(), c.to_string());
+            }
+            None if sigs.get(n).map(|sg| is_observer_sig(sg)).unwrap_or(false) => {
+                // a new function that only looks (`&self`, returns no delta / message / route / channel)
+                // cannot move an update: recorded, not judged
+                table.insert(n.clone(), format!("new observer, not driven (cannot move a delta): {}", sigs[n].trim()));
+                out.count("coverage:new-observer-not-judged");
             }
             None => {
                 table.insert(n.clone(), "UNACCOUNTED".into());
